@@ -9,20 +9,24 @@ CLAIMED = True
 TECHNIQUE = ("Lean 4 proofs (induction over string length / dictionary / search) of the classical bookkeeping and the amplitude "
              "recurrences of the three sparse initializers; executable models tied to merge.py / pivot.py / cvoqram.py by diffing "
              "tracked dictionaries, selections, angles and gate lists; Statevector oracle incl. zeros elsewhere and ancilla cleanliness")
-LEVEL_TEXT = ("Proved for all sizes: the string tracking of X/CX equals the reversible action of the emitted gate (C06_track); the merge "
-              "search terminates and its selection makes the multi-controlled merge touch exactly the chosen pair (C06_merge_select); the "
-              "merge rotation and the CVO-QRAM rotation load the exact amplitudes, with the norm recurrence (C06_merge_rot, C06_cvo_amp); "
-              "the pivot step's key relabelling is the reversible action of the emitted gates, a bijection that maps the pivot into the low "
-              "block and fixes the low block (C06_pivot_step); Hamming-sorted distinct patterns never fire an earlier branch (C06_cvo_order). "
-              "Tie: all dictionaries with n<=3 (every subset, several orders) and random ones to n<=7, all variants. Oracle: Statevector of "
-              "the real definitions vs the embedded dictionary (global phase, zeros elsewhere, auxiliaries in |0>).")
+LEVEL_TEXT = ("Proved for all sizes (induction, no samples): the string tracking of X/CX is the reversible action of the emitted gate "
+              "(C06_track); _bit_string_search terminates (C06_search_terminates); for every dictionary of m>=2 distinct n-bit keys "
+              "_select_strings succeeds, its result is the unique key matching dif_values on dif_qubits, and after _preprocess_states "
+              "(one injective relabelling of all keys) the multi-controlled merge's controls hold exactly on the chosen pair "
+              "(C06_merge_select); the merge rotation (complex and real branch) and the CVO-QRAM rotation load the exact amplitudes, "
+              "norm recurrence included (C06_merge_rot, C06_cvo_amp); Hamming-sorted distinct patterns never fire an earlier branch "
+              "(C06_cvo_order). Partial: pivot step (C06_pivot_step_partial: choice of index_differ/ctrl_state/target_cx, pivot -> free "
+              "index, low block fixed, lengths, exit => all keys < 2^t; NOT proved: _next_state = gate evaluation on the other high keys, "
+              "injectivity there, _get_index_zero pigeonhole). Not proved: whole-circuit induction over m (C06_merge_total), the rccx "
+              "ladders. Tie: all dictionaries with n<=3 (every subset, 2/4 orders) and random ones to n<=7, all 7 variants. Oracle: "
+              "Statevector of the real definitions vs the embedded dictionary (global phase, zeros elsewhere, auxiliaries in |0>).")
 LEVEL_NOTE = ("Trusted: Lean kernel (standard axioms); hand models <-> code only on explored inputs; multi-controlled back-ends (Ldmcu, Mcg, "
               "LdMcSpecialUnitary, qiskit .control()/mcx v-chain-dirty), rccx, LowRankInitialize are opaque primitives (C04/C05/C01, checked "
               "numerically here through the oracle); float vs exact reals.")
 LEAN_TARGETS = ["QclibModel.Props.C06"]
 THEOREMS = [
     "Qclib.C06_track", "Qclib.C06_search_terminates", "Qclib.C06_merge_select", "Qclib.C06_merge_rot",
-    "Qclib.C06_pivot_step", "Qclib.C06_cvo_order", "Qclib.C06_cvo_amp",
+    "Qclib.C06_pivot_step_partial", "Qclib.C06_cvo_order", "Qclib.C06_cvo_amp",
 ]
 TRUSTED = [
     "multi-controlled one-qubit gates (Ldmcu, Mcg, LdMcSpecialUnitary, qiskit ControlledGate, mcx v-chain-dirty, ccx) act as "
@@ -41,6 +45,33 @@ RULE = ("tie: (initializer, options, ordered dictionary) whose trace (selections
 DRIVER = "Drivers/C06.lean"
 
 TOL = 1e-7
+BUILD_LIMIT_S = 20      # a construction that runs longer than this is reported as non-terminating
+
+
+class Hang(Exception):
+    pass
+
+
+class time_limit:
+    """SIGALRM guard around calls into qclib (an altered loop condition must not hang the check)."""
+
+    def __init__(self, seconds):
+        self.seconds = seconds
+
+    def __enter__(self):
+        import signal
+
+        def handler(signum, frame):
+            raise Hang(f"no result after {self.seconds}s")
+        self.old = signal.signal(signal.SIGALRM, handler)
+        signal.setitimer(signal.ITIMER_REAL, self.seconds)
+
+    def __exit__(self, *a):
+        import signal
+        signal.setitimer(signal.ITIMER_REAL, 0)
+        signal.signal(signal.SIGALRM, self.old)
+        return False
+
 VARIANTS = [("merge", {}), ("pivot", {"aux": False}), ("pivot", {"aux": True}),
             ("cvo", {"aux": True, "method": "linear"}), ("cvo", {"aux": False, "method": "linear"}),
             ("cvo", {"aux": False, "method": "qiskit"}), ("cvo", {"aux": False, "method": "barenco"})]
@@ -142,6 +173,12 @@ def layout(alg, opts, n, m):
     return n + 1, (lambda k: int(k, 2) << 1)
 
 
+def _hangs(ctx):
+    if not hasattr(ctx, "c06_hangs"):
+        ctx.c06_hangs = {}
+    return ctx.c06_hangs
+
+
 def payload(alg, opts, keys, amps, extra=None):
     p = {"call": vname(alg, opts), "alg": alg, "opts": opts, "keys": list(keys),
          "amps": [[float(a.real), float(a.imag)] for a in amps]}
@@ -157,9 +194,16 @@ def oracle_case(ctx, alg, opts, keys, amps, kind):
     name = vname(alg, opts)
     tag = f"n={n}:m={m}:{kind}:{dhash(keys, amps)}"
     d = dict(zip(keys, amps))
+    if _hangs(ctx).get(name, 0) >= 2:     # circuit breaker: already reported twice as non-terminating
+        return
     try:
-        gate = build(alg, opts, d)
-        circ = gate.definition
+        with time_limit(BUILD_LIMIT_S):
+            gate = build(alg, opts, d)
+            circ = gate.definition
+    except Hang as e:
+        ctx.fail(f"{name}:hangs:{tag}", f"construction does not terminate ({e})", payload(alg, opts, keys, amps))
+        _hangs(ctx)[name] = _hangs(ctx).get(name, 0) + 1
+        return
     except Exception as e:  # construction must not fail on a valid input
         ctx.fail(f"{name}:raises:{type(e).__name__}:{tag}", f"construction raised {type(e).__name__}: {e}",
                  payload(alg, opts, keys, amps))
@@ -203,16 +247,24 @@ def tie_case(ctx, alg, opts, keys, amps):
     n = len(keys[0])
     d = dict(zip(keys, amps))
     op = {"op": alg, "n": n, "keys": list(keys), "amps": [[float(a.real), float(a.imag)] for a in amps]}
+    if _hangs(ctx).get(vname(alg, opts), 0) >= 2:
+        return
     try:
-        if alg == "merge":
-            lines, _ = T.trace_merge(d)
-        elif alg == "pivot":
-            op["aux"] = opts["aux"]
-            lines, _ = T.trace_pivot(d, opts["aux"])
-        else:
-            op["aux"] = opts["aux"]
-            op["method"] = opts["method"]
-            lines, _ = T.trace_cvo(d, opts["aux"], opts["method"])
+        with time_limit(BUILD_LIMIT_S):
+            if alg == "merge":
+                lines, _ = T.trace_merge(d)
+            elif alg == "pivot":
+                op["aux"] = opts["aux"]
+                lines, _ = T.trace_pivot(d, opts["aux"])
+            else:
+                op["aux"] = opts["aux"]
+                op["method"] = opts["method"]
+                lines, _ = T.trace_cvo(d, opts["aux"], opts["method"])
+    except Hang as e:
+        ctx.fail(f"{vname(alg, opts)}:hangs:n={n}:m={len(keys)}:tie:{dhash(keys, amps)}",
+                 f"construction does not terminate ({e})", payload(alg, opts, keys, amps))
+        _hangs(ctx)[vname(alg, opts)] = _hangs(ctx).get(vname(alg, opts), 0) + 1
+        return
     except Exception as e:
         ctx.fail(f"{vname(alg, opts)}:raises:{type(e).__name__}:n={n}:m={len(keys)}:tie:{dhash(keys, amps)}",
                  f"construction raised {type(e).__name__}: {e}", payload(alg, opts, keys, amps))
